@@ -524,17 +524,18 @@ type stakeExec struct {
 	memo       int
 
 	// monitor bookkeeping
-	tainted   bool                      // a successful tx carried an amount outside [0, 2^63)
-	credits   map[int64][]pendingCredit // expected unlocks per height, from successful unstakes
-	stakedRec map[int]*big.Int          // per delegator: whole tokens staked (incl. genesis)
-	withdRec  map[int]*big.Int          // whole tokens withdrawn
-	penalRec  map[int]*big.Int          // whole tokens slashed
-	paidIn    map[int]*big.Int          // smallest units debited by successful stakes (+ genesis stake)
-	paidOut   map[int]*big.Int          // smallest units credited by successful withdrawals
-	monOff    bool                      // a monitor fired; the monitors are off for the rest of the history
-	stopped   bool                      // the history ends
-	Scripted  bool                      // corpus / replay script (not ended by a tainted amount)
-	aborted   bool                      // the application closed itself (panic): history ends
+	tainted      bool                      // a successful tx carried an amount outside [0, 2^63)
+	credits      map[int64][]pendingCredit // expected unlocks per height, from successful unstakes
+	stakedRec    map[int]*big.Int          // per delegator: whole tokens staked (incl. genesis)
+	withdRec     map[int]*big.Int          // whole tokens withdrawn
+	unstakedFrom map[int]map[int]*big.Int  // per delegator and validator: whole tokens unstaked from it and not yet withdrawn
+	penalRec     map[int]*big.Int          // whole tokens slashed
+	paidIn       map[int]*big.Int          // smallest units debited by successful stakes (+ genesis stake)
+	paidOut      map[int]*big.Int          // smallest units credited by successful withdrawals
+	monOff       bool                      // a monitor fired; the monitors are off for the rest of the history
+	stopped      bool                      // the history ends
+	Scripted     bool                      // corpus / replay script (not ended by a tainted amount)
+	aborted      bool                      // the application closed itself (panic): history ends
 
 	// non-triviality evidence
 	nUnlock, nWithdrawOK, nGuarded, nSlash, nFrozenRej int
@@ -554,7 +555,7 @@ func (e *stakeExec) hit(sig, detail string) {
 func newStakeExec(p Params, c int, res *Result) (*stakeExec, error) {
 	w := NewWorld(p)
 	e := &stakeExec{P: p, W: w, Case: c, Res: res, Maturity: p.StakeMaturity, checkMaturity: p.StakeMaturity, credits: map[int64][]pendingCredit{}, reqAccused: map[string]int{},
-		stakedRec: map[int]*big.Int{}, withdRec: map[int]*big.Int{}, penalRec: map[int]*big.Int{}, paidIn: map[int]*big.Int{}, paidOut: map[int]*big.Int{}}
+		stakedRec: map[int]*big.Int{}, withdRec: map[int]*big.Int{}, unstakedFrom: map[int]map[int]*big.Int{}, penalRec: map[int]*big.Int{}, paidIn: map[int]*big.Int{}, paidOut: map[int]*big.Int{}}
 	e.A = newStakeActors(w, 1)
 	r, err := NewReplica(w, Identity{Name: "S", Val: w.Vals[0]})
 	if err != nil {
